@@ -167,6 +167,10 @@ def make(rng, kind):
                 continue
             # (choices below come from a generator of their own, so that the scenarios drawn from rng stay what they were)
             r2 = random.Random(name + repr(sorted((k, repr(x)) for k, x in cfg[name].items())))
+            if kd == "plimit" and "IDX" in cfg and r2.random() < 0.5:
+                # the rule names the INDEX market (and at most some of its components): the other components are not targets
+                comps = cfg["IDX"]["markets"]
+                cfg[name]["targetMarkets"] = ["IDX"] + [x for x in cfg[name]["targetMarkets"] if x != comps[0]][:r2.choice([0, 1])]
             if kd in ("plimit", "halt") and "extends" not in cfg[name] and r2.random() < 0.35:
                 # a rule declared through a template: the entry's own keys win - also the falsy ones (no targets, a rate of
                 # zero = a band of one price, "enabled": false)
